@@ -531,6 +531,27 @@ def _install() -> None:
 
     _reg("to_sympy", lambda ch: g_unary(ch, shape=ch.choice([(), (), (2,)]), kind=ch.choice(["int", "float"]), max_terms=4), _to_sympy, "polyfn", weight=1)
     _reg("pickle", g_unary, lambda a, k: pickle.loads(pickle.dumps(a[0], protocol=k.get("protocol", 2))), "polyfn")
+
+    def _savetxt(spelling: str) -> Callable:
+        def call(a: list, k: dict) -> Any:
+            import io
+
+            stream = io.BytesIO() if k.get("binary") else io.StringIO()
+            (n.savetxt if spelling == "numpoly" else numpy.savetxt)(stream, a[0], **{x: v for x, v in k.items() if x != "binary"})
+            stream.seek(0)
+            return n.loadtxt(stream)
+
+        return call
+
+    def g_savetxt(ch: core.Chooser) -> dict:
+        d = g_unary(ch, kind=ch.choice(["int", "float"]))
+        d["kwargs"] = {"binary": ch.chance(0.5)}
+        if ch.chance(0.3):
+            d["kwargs"]["header"] = "note"
+        return d
+
+    _reg("savetxt", g_savetxt, _savetxt("numpoly"), "polyfn", weight=1)
+    _reg("numpy.savetxt", g_savetxt, _savetxt("numpy"), "polyfn", weight=1)
     _reg("copy.copy", g_unary, lambda a, k: copy.copy(a[0]), "polyfn", weight=1)
     _reg("copy.deepcopy", g_unary, lambda a, k: copy.deepcopy(a[0]), "polyfn", weight=1)
     _reg("roots", lambda ch: {"args": [{"seq": [ch.choice([1, 2, -1, 0, 3]) for _ in range(ch.between(1, 3))]}], "kwargs": {}},
